@@ -34,10 +34,16 @@ func (e env) String() string {
 	return fmt.Sprintf("GOMAXPROCS=%s TMPDIR=%s maporder=%s wallclock=%s", e.Procs, e.Tmp, m, c)
 }
 
-func runOne(bin, scenario string, e env, scratch string) ([]string, error) {
+// runOne runs one scenario process in working directory dir (which is also the parent of its HOME).
+func runOne(bin, scenario string, e env, scratch, dir string) ([]string, error) {
 	cmd := exec.Command(bin, "c14run", scenario)
-	envv := []string{}
+	os.MkdirAll(filepath.Join(dir, "home"), 0o755)
+	cmd.Dir = dir
+	envv := []string{"HOME=" + filepath.Join(dir, "home")}
 	for _, kv := range os.Environ() {
+		if strings.HasPrefix(kv, "HOME=") {
+			continue
+		}
 		if strings.HasPrefix(kv, "GOMAXPROCS=") || strings.HasPrefix(kv, "TMPDIR=") || strings.HasPrefix(kv, "VERIF_MAPORDER=") || strings.HasPrefix(kv, "VERIF_CLOCK=") {
 			continue
 		}
@@ -178,10 +184,101 @@ func Run(r *ev.Run, tier, self, harnessDir, scratch string) (states, transitions
 			if j.e.MapOrder != "" || j.e.Clock != "" {
 				bin = inst
 			}
-			results[i], errs[i] = runOne(bin, j.sc, j.e, scratch)
+			results[i], errs[i] = runOne(bin, j.sc, j.e, scratch, filepath.Join(scratch, fmt.Sprintf("cwd-%d", i)))
 		}(i, j)
 	}
 	wg.Wait()
+	// 3. local files: every scenario runs once more in a fresh working directory (and HOME) as a node that is killed before
+	// it cleans up — its unlink/rmdir calls are turned into no-ops (strace syscall injection) — so every file it ever
+	// created is still there afterwards. Those files are then damaged (same names and sizes, first 8 bytes kept so that
+	// format magics still match, every other byte inverted) and the scenario runs again in that directory: what a node
+	// finds on its local disk must not feed back into what the state machine computes.
+	straceOK := exec.Command("strace", "-f", "--seccomp-bpf", "-e", "trace=unlink", "-o", "/dev/null", "true").Run() == nil
+	if !straceOK {
+		r.Note("strace cannot attach in this environment: the local-files dimension only sees files the scenario does not remove itself")
+	}
+	type lres struct {
+		note  []string
+		left  []string
+		got   []string
+		err   error
+		first error
+	}
+	lr := make([]lres, len(jobs))
+	for i, j := range jobs {
+		if j.e != ref || errs[i] != nil {
+			continue
+		}
+		wg.Add(1)
+		go func(i int, j job) {
+			defer wg.Done()
+			sem <- struct{}{}
+			defer func() { <-sem }()
+			dir := filepath.Join(scratch, fmt.Sprintf("cwd-%d", i))
+			if straceOK {
+				dir = filepath.Join(scratch, fmt.Sprintf("kept-%d", i))
+				os.MkdirAll(filepath.Join(dir, "home"), 0o755)
+				c := exec.Command("strace", "-f", "--seccomp-bpf", "-e", "trace=unlink,unlinkat,rmdir", "-e", "inject=unlink,unlinkat,rmdir:retval=0", "-o", "/dev/null", self, "c14run", j.sc)
+				c.Dir = dir
+				c.Env = append(os.Environ(), "HOME="+filepath.Join(dir, "home"))
+				if out, err := c.CombinedOutput(); err != nil {
+					lr[i].first = fmt.Errorf("%v: %s", err, lastBytes(out, 400))
+				}
+			}
+			filepath.Walk(dir, func(p string, info os.FileInfo, err error) error {
+				if err == nil && info.Mode().IsRegular() {
+					lr[i].left = append(lr[i].left, p)
+				}
+				return nil
+			})
+			if len(lr[i].left) == 0 {
+				return
+			}
+			for _, p := range lr[i].left {
+				bz, err := os.ReadFile(p)
+				if err != nil {
+					continue
+				}
+				for k := 8; k < len(bz); k++ {
+					bz[k] = ^bz[k]
+				}
+				os.WriteFile(p, bz, 0o644)
+				rel, _ := filepath.Rel(dir, p)
+				lr[i].note = append(lr[i].note, fmt.Sprintf("scenario %s created %s (%d bytes); kept and damaged for the re-run", j.sc, rel, len(bz)))
+			}
+			lr[i].got, lr[i].err = runOne(self, j.sc, ref, scratch, dir)
+		}(i, j)
+	}
+	wg.Wait()
+	var localRuns int64
+	for i, j := range jobs {
+		if j.e != ref || errs[i] != nil {
+			continue
+		}
+		for _, n := range lr[i].note {
+			r.Note(n)
+		}
+		ctx := map[string]interface{}{"engine": "c14", "scenario": j.sc, "env": "working directory and HOME hold the damaged files of an earlier run that was killed before its clean-up", "files": lr[i].left}
+		switch {
+		case lr[i].first != nil:
+			// the node whose clean-up calls are no-ops must still run: report as a harness problem, not as a verdict
+			return 0, 0, fmt.Errorf("scenario %s under strace: %v", j.sc, lr[i].first)
+		case len(lr[i].left) == 0:
+			r.Outcome("scenario " + j.sc + ": created no file in its working directory or HOME")
+		case lr[i].err != nil:
+			localRuns++
+			r.Outcome("scenario " + j.sc + ": FAILS in local-files")
+			r.Violation("C14:trace-depends-on-environment/"+j.sc+"/local-files", fmt.Sprintf("scenario %s fails when its working directory holds the damaged files of an earlier run: %v", j.sc, lr[i].err), ctx)
+		case strings.Join(lr[i].got, "\n") != strings.Join(results[i], "\n"):
+			localRuns++
+			r.Outcome("scenario " + j.sc + ": trace DIFFERS in local-files")
+			r.Violation("C14:trace-depends-on-environment/"+j.sc+"/local-files", fmt.Sprintf("scenario %s computes a different trace when its working directory holds the (damaged) files an earlier run created there: %v", j.sc, lr[i].left), ctx)
+		default:
+			localRuns++
+			r.Outcome("scenario " + j.sc + ": identical trace in local-files")
+		}
+	}
+	r.Count("local_file_reruns", localRuns)
 	refs := map[string][]string{}
 	for i, j := range jobs {
 		if errs[i] != nil {
@@ -242,6 +339,13 @@ func Run(r *ev.Run, tier, self, harnessDir, scratch string) (states, transitions
 	r.Count("processes_run", int64(len(jobs)))
 	r.Count("environments", int64(len(envs)))
 	return states, transitions, nil
+}
+
+func lastBytes(b []byte, n int) string {
+	if len(b) > n {
+		b = b[len(b)-n:]
+	}
+	return string(b)
 }
 
 // dimension names the coordinates in which e differs from the reference.
